@@ -504,9 +504,9 @@ theorem keeps_weak {σ : List Scope} {T : Nat} {curP : List Nat} {b b' : B} (W :
   intro R h
   refine ⟨?_, ?_, ?_, ?_, ?_, fun x hx => by rw [her]; exact h.exempt x hx⟩
   · intro p hp
-    rcases h.req p hp with h1 | ⟨c, t, h1⟩ | ⟨h1, h2⟩
+    rcases h.req p hp with h1 | ⟨c, t, htg, h1⟩ | ⟨h1, h2⟩
     · exact Or.inl (W.edges p h1)
-    · exact Or.inr (Or.inl ⟨c, t, W.ppat h1 (by rw [hd]) (fun _ _ _ _ => by rw [hf])⟩)
+    · exact Or.inr (Or.inl ⟨c, t, htg, W.ppat h1 (by rw [hd]) (fun _ _ _ _ => by rw [hf])⟩)
     · exact Or.inr (Or.inr ⟨h1, hst _ h2⟩)
   · intro x hx; obtain ⟨L, hL, h1⟩ := h.brk x hx; exact ⟨L, hL, pj _ _ _ _ h1⟩
   · intro x hx; obtain ⟨L, hL, h1⟩ := h.cont x hx; exact ⟨L, hL, pj _ _ _ _ h1⟩
@@ -580,7 +580,7 @@ theorem getLast?_split {pre : List Nat} {g : Nat} (h : pre.getLast? = some g) : 
 
 /-- a node pending before the `finally` block `i` flows into the block's first node: a pending pair of its jump -/
 theorem pp_of_started {b : B} {c : Bool} {t i : Nat} {G : List Nat} {x' y : Nat} (hpj : PJ c b t (i :: G) x')
-    (hst : StartedAt b i y) (hC : Complete b i) : PP b (x', y) := by
+    (hst : StartedAt b i y) (hC : Complete b i) : PPat b c t (x', y) := by
   obtain ⟨l, j, pre, h1, h2, h3, h4, h5⟩ := hpj
   have hbeg : BeginOf b i y := by
     obtain ⟨_, bg, ends, hc⟩ := hC
@@ -589,7 +589,7 @@ theorem pp_of_started {b : B} {c : Bool} {t i : Nat} {G : List Nat} {x' y : Nat}
     simp only [Option.some.injEq, Prod.mk.injEq] at he
     obtain ⟨he1, _⟩ := he
     exact ⟨hn, ends, by rw [hc, he1]⟩
-  refine ⟨c, t, l, j, pre ++ i :: G, h1, h2, h3, ?_⟩
+  refine ⟨l, j, pre ++ i :: G, h1, h2, h3, ?_⟩
   rcases h5 with ⟨hp, hx⟩ | ⟨g, bg, ends, hl, hg, hx⟩
   · subst hp
     exact Or.inl ⟨i, G, rfl, hx, hbeg⟩
@@ -615,6 +615,7 @@ theorem fin_convert (σ : List Scope) (T : Nat) (curP : List Nat) (i : Nat) (b :
     (hends : ∃ bg ends, aget i b.finallySub = some (some bg, some ends) ∧ ∀ x, x ∈ F0.normal → x ∈ b.deref ends)
     (hne : F0.normal ≠ [] → ∃ x', x' ∈ Pj)
     (hPJ : ∀ x', x' ∈ Pj → ∃ t, tgt = some t ∧ PJ c b t (i :: G) x')
+    (htg : ∀ t, tgt = some t → Tgt σ c t)
     (h : Pend σ i Pj b F0) :
     Pend σ T curP b { F0 with normal := [] } ∧ (∀ x, x ∈ F0.normal → ∃ t, tgt = some t ∧ PJ c b t G x) := by
   refine ⟨⟨?_, h.brk, h.cont, h.ret, h.raise, h.exempt⟩, ?_⟩
@@ -622,8 +623,8 @@ theorem fin_convert (σ : List Scope) (T : Nat) (curP : List Nat) (i : Nat) (b :
     rcases h.req p hp with h1 | h1 | ⟨h1, h2⟩
     · exact Or.inl h1
     · exact Or.inr (Or.inl h1)
-    · obtain ⟨t, _, hpj⟩ := hPJ p.1 h1
-      exact Or.inr (Or.inl (pp_of_started hpj h2 hC))
+    · obtain ⟨t, ht, hpj⟩ := hPJ p.1 h1
+      exact Or.inr (Or.inl ⟨c, t, htg t ht, pp_of_started hpj h2 hC⟩)
   · intro x hx
     obtain ⟨x', hx'⟩ := hne (fun e => by rw [e] at hx; cases hx)
     obtain ⟨t, ht, hpj⟩ := hPJ x' hx'
@@ -634,13 +635,6 @@ theorem flowBlock_nil_cur (ss : List Stmt) (hne : ss ≠ []) : flowBlock ss [] =
   cases ss with
   | nil => exact (hne rfl).elim
   | cons s ss => simp [flowBlock]
-
-/-- the required pairs and the error nodes do not depend on the scope list -/
-theorem Pend.req_only {σ1 σ2 : List Scope} {T : Nat} {curP : List Nat} {b : B} {R : Flow} (h : Pend σ1 T curP b R) :
-    Pend σ2 T curP b { req := R.req, exempt := R.raise ++ R.exempt } :=
-  ⟨h.req, fun _ hx => (List.not_mem_nil hx).elim, fun _ hx => (List.not_mem_nil hx).elim, fun _ hx => (List.not_mem_nil hx).elim,
-   fun _ hx => (List.not_mem_nil hx).elim,
-   fun x hx => (List.mem_append.mp hx).elim (fun h' => (h.raise x h').1) (h.exempt x)⟩
 
 theorem Pend.out_of_try0 {σ : List Scope} {i : Nat} {T : Nat} {curP : List Nat} {b : B} {R : Flow}
     (h : Pend (Scope.try_ i false [] :: σ) T curP b R) : Pend σ T curP b R :=
@@ -696,5 +690,244 @@ theorem lemB_try_nofin (σ : List Scope) (i : Nat) (body handlers orelse : List 
   intro x hx
   rw [B.leafSet_endStatement]
   exact hN x hx
+
+theorem Pend.drop_normal {σ : List Scope} {T : Nat} {curP : List Nat} {b : B} {R : Flow} (h : Pend σ T curP b R) :
+    Pend σ T curP b { R with normal := [] } := ⟨h.req, h.brk, h.cont, h.ret, h.raise, h.exempt⟩
+
+/-- `try … finally: f0; frest` -/
+theorem lemB_try_fin (σ : List Scope) (i : Nat) (body handlers orelse : List Stmt) (f0 : Stmt) (frest : List Stmt) (b : B) (a : Acc)
+    (cur : List Nat) (inLoop : Bool) (T : Nat) (curP : List Nat)
+    (hH : frag3H inLoop handlers = true)
+    (hnd : (sk i :: (repKey orelse ++ (repKey handlers ++ (keysL3 body ++ (keysL3 handlers ++ (keysL3 orelse ++ keysL3 (f0 :: frest))))))).Nodup)
+    (hp : Pre σ (sk i :: (repKey orelse ++ (repKey handlers ++ (keysL3 body ++ (keysL3 handlers ++ (keysL3 orelse ++ keysL3 (f0 :: frest))))))) b)
+    (hT : TOk curP T (sk i :: (repKey orelse ++ (repKey handlers ++ (keysL3 body ++ (keysL3 handlers ++ (keysL3 orelse ++ keysL3 (f0 :: frest))))))))
+    (hc : ∀ x, x ∈ cur → Src b T curP x)
+    (fbody : ∀ (b : B) (a : Acc), FF (keysL3 body) b (visitStmts (Scope.try_ i true (handlerIds handlers) :: σ) body b a).1)
+    (forelse : ∀ (b : B) (a : Acc), FF (keysL3 orelse) b (visitStmts (Scope.try_ i true (handlerIds handlers) :: σ) orelse b a).1)
+    (fhand : ∀ (rep : Nat) (K : List Nat) (b : B) (a : Acc), ck rep ∈ K → (∀ k, k ∈ keysL3 handlers → k ∈ K) →
+      FF K b (visitHandlers σ rep handlers b a).1)
+    (ffinal : ∀ (b : B) (a : Acc), FF (keysL3 (f0 :: frest)) b (visitStmts σ (f0 :: frest) b a).1)
+    (efinal : ∀ (b : B) (a : Acc), EmitsOk (keysL3 (f0 :: frest)) b (visitStmts σ (f0 :: frest) b a).1)
+    (hbody : ∀ (b : B) (a : Acc) (cur : List Nat), Pre (Scope.try_ i true (handlerIds handlers) :: σ) (keysL3 body) b →
+      (∀ x, x ∈ cur → Src b T curP x) →
+      Post (Scope.try_ i true (handlerIds handlers) :: σ) T curP (visitStmts (Scope.try_ i true (handlerIds handlers) :: σ) body b a).1 (flowBlock body cur))
+    (horelse : ∀ (b : B) (a : Acc) (cur : List Nat), Pre (Scope.try_ i true (handlerIds handlers) :: σ) (keysL3 orelse) b → InLeaves b cur →
+      Post (Scope.try_ i true (handlerIds handlers) :: σ) T [] (visitStmts (Scope.try_ i true (handlerIds handlers) :: σ) orelse b a).1 (flowBlock orelse cur))
+    (hhand : ∀ (rep L0 : Nat) (rs : List Nat) (b : B) (a : Acc) (splits : List Nat),
+      ck rep ∉ keysL3 handlers → Pre σ (keysL3 handlers) b →
+      aget rep b.condLeaves = some splits →
+      (aget rep b.condEntry = some L0 ∨ (aget rep b.condEntry = none ∧ b.leaves = L0 ∧ splits = [])) →
+      (∀ hid, hid ∈ handlerIds handlers → ∀ x, x ∈ rs → ∃ l, aget hid b.raises = some l ∧ x ∈ l) →
+      HandlersOk σ rep L0 rs handlers b a splits T)
+    (hfinal : ∀ (b : B) (a : Acc) (cur cP : List Nat), Pre σ (keysL3 (f0 :: frest)) b → (∀ x, x ∈ cur → Src b i cP x) →
+      Post σ i cP (visitStmts σ (f0 :: frest) b a).1 (flowBlock (f0 :: frest) cur))
+    (hnoesc : ∀ rs, (flowHandlers handlers rs).brk = [] ∧ (flowHandlers handlers rs).cont = [] ∧ (flowHandlers handlers rs).ret = []) :
+    Post σ T curP (visitStmt σ (.try_ i body handlers orelse (f0 :: frest)) b a).1
+      (flowStmt (.try_ i body handlers orelse (f0 :: frest)) cur) := by
+  obtain ⟨P1, P2, PH, hN, ldj3, f03⟩ := lemB_tryPre σ i body handlers orelse (f0 :: frest) b a cur inLoop true T curP hH hnd hp hT hc
+    fbody forelse fhand hbody horelse hhand
+  -- keys
+  obtain ⟨hi_all, hnd0⟩ := List.nodup_cons.mp hnd
+  obtain ⟨_, d_ro, d_rh, d_b, d_h, d_o⟩ := nd6 hnd0
+  have hi_f : sk i ∉ keysL3 (f0 :: frest) := fun h => hi_all (by simp [h])
+  have kf : ∀ k, k ∈ keysL3 (f0 :: frest) → k ∈ sk i :: (repKey orelse ++ (repKey handlers ++ (keysL3 body ++ (keysL3 handlers ++ (keysL3 orelse ++ keysL3 (f0 :: frest)))))) :=
+    fun k hk => List.mem_cons_of_mem _ (by simp [hk])
+  have k5 : ∀ k, k ∈ repKey orelse ++ (repKey handlers ++ (keysL3 body ++ (keysL3 handlers ++ keysL3 orelse))) →
+      k ∈ sk i :: (repKey orelse ++ (repKey handlers ++ (keysL3 body ++ (keysL3 handlers ++ (keysL3 orelse ++ keysL3 (f0 :: frest)))))) := by
+    intro k hk
+    simp only [List.mem_append] at hk
+    rcases hk with hk | hk | hk | hk | hk <;> exact List.mem_cons_of_mem _ (by simp [hk])
+  have ki5 : ∀ k, k ∈ sk i :: (repKey orelse ++ (repKey handlers ++ (keysL3 body ++ (keysL3 handlers ++ keysL3 orelse)))) →
+      k ∈ sk i :: (repKey orelse ++ (repKey handlers ++ (keysL3 body ++ (keysL3 handlers ++ (keysL3 orelse ++ keysL3 (f0 :: frest)))))) := by
+    intro k hk
+    rcases List.mem_cons.mp hk with e | hk
+    · rw [e]; exact List.mem_cons_self ..
+    · exact k5 k hk
+  have hi_5 : sk i ∉ repKey orelse ++ (repKey handlers ++ (keysL3 body ++ (keysL3 handlers ++ keysL3 orelse))) := by
+    intro h
+    have := k5 _ h
+    rcases List.mem_cons.mp this with e | h'
+    · exact hi_all (by
+        simp only [List.mem_append] at h
+        rcases h with h | h | h | h | h <;> simp [h])
+    · exact hi_all h'
+  have d_f5 : ∀ k, k ∈ keysL3 (f0 :: frest) → k ∉ sk i :: (repKey orelse ++ (repKey handlers ++ (keysL3 body ++ (keysL3 handlers ++ keysL3 orelse)))) := by
+    intro k hk h
+    rcases List.mem_cons.mp h with e | h
+    · exact hi_f (e ▸ hk)
+    · simp only [List.mem_append] at h
+      rcases h with h | h | h | h | h
+      · exact (d_ro _ h).2.2.2.2 hk
+      · exact (d_rh _ h).2.2.2 hk
+      · exact (d_b _ h).2.2 hk
+      · exact (d_h _ h).2 hk
+      · exact d_o _ h hk
+  -- states
+  let R3 := tryR3 σ handlers (tryR2 (Scope.try_ i true (handlerIds handlers) :: σ) orelse
+        (visitStmts (Scope.try_ i true (handlerIds handlers) :: σ) body (b.beginStatement i) a))
+  let b5 := R3.1.enterFinallySection i
+  let r6 := visitStmts σ (f0 :: frest) b5 R3.2
+  let b7 := r6.1.exitFinallySection i
+  have hvis : (visitStmt σ (.try_ i body handlers orelse (f0 :: frest)) b a).1 = b7.endStatement i := rfl
+  rw [hvis]
+  have f05 : FF (sk i :: (repKey orelse ++ (repKey handlers ++ (keysL3 body ++ (keysL3 handlers ++ keysL3 orelse))))) b b5 :=
+    (f03.weaken (fun k hk => List.mem_cons_of_mem _ hk)).trans (ff_enterFinallySection _ _ i (List.mem_cons_self ..))
+  have ldj5 : ListsDisjoint b5 := ldj_of_eq (b := R3.1) rfl rfl ldj3
+  have pre5 : Pre σ (keysL3 (f0 :: frest)) b5 := (hp.sub kf).move f05.f f05.x (fun k hk h => hp.disj k hk (ki5 k h)) d_f5 ldj5
+  have hsub5 : aget i b5.finallySub = some (none, none) := by
+    show aget i (aset i _ _) = _
+    rw [aget_aset]; simp
+  have wait5 : Wait b5 i := by
+    refine ⟨?_, none, none, hsub5⟩
+    show i ∈ (if R3.1.pendingFinally.contains i then R3.1.pendingFinally else R3.1.pendingFinally ++ [i])
+    split
+    · rename_i h; simpa using h
+    · simp
+  have hdir5 : aget i b5.finallyDirect = some (!R3.1.leafSet.isEmpty) := by
+    show aget i (aset i _ _) = _
+    rw [aget_aset]; simp
+  have ff := ffinal b5 R3.2
+  obtain ⟨hnp6, beg, e, hs6⟩ := efinal b5 R3.2 i hi_f wait5
+  have he : e = none := by
+    have := ff.x.fends i hi_f
+    rw [hs6, hsub5] at this
+    simpa using this
+  subst he
+  have hdir6 : aget i r6.1.finallyDirect = some (!R3.1.leafSet.isEmpty) := by rw [ff.x.fdir i hi_f]; exact hdir5
+  obtain ⟨W, ⟨xe, xc, xf, xer, xr⟩, ⟨ends, hends, hsubE⟩, hoth, hdT, hdF⟩ := exitFinally_spec r6.1 i beg _ hs6 hnp6 hdir6
+  have hC7 : Complete b7 i := ⟨by rw [W.pendingFinally]; exact hnp6, beg, ends, hends⟩
+  have hst67 : ∀ T' y, StartedAt r6.1 T' y → StartedAt b7 T' y := by
+    intro T' y hst
+    obtain ⟨h1, e', h2⟩ := hst
+    by_cases hTi : T' = i
+    · subst hTi
+      rw [hs6] at h2
+      simp only [Option.some.injEq, Prod.mk.injEq] at h2
+      exact ⟨by rw [W.pendingFinally]; exact h1, some ends, by rw [← h2.1]; exact hends⟩
+    · exact ⟨by rw [W.pendingFinally]; exact h1, e', by rw [hoth T' hTi]; exact h2⟩
+  -- what is kept up to the end of the `finally` block
+  have tr3 : Tr σ [sk i] R3.1 :=
+    (hp.tr.sub (fun k hk => by simp only [List.mem_singleton] at hk; rw [hk]; exact List.mem_cons_self ..)).move f03.x
+      (fun k hk h => hi_5 (by simp only [List.mem_singleton] at hk; rw [← hk]; exact h))
+  have k37 : ∀ (σ0 : List Scope), (∀ K' b', Tr σ K' b' → Tr σ0 K' b') → ∀ T' cP,
+      TOk cP T' (sk i :: (repKey orelse ++ (repKey handlers ++ (keysL3 body ++ (keysL3 handlers ++ (keysL3 orelse ++ keysL3 (f0 :: frest))))))) →
+      Keeps σ0 T' cP R3.1 b7 := by
+    intro σ0 hσ0 T' cP ht
+    exact ((keeps_tr (hσ0 _ _ tr3) (ff_enterFinallySection [sk i] R3.1 i (by simp))
+        (ht.sub (fun k hk => by simp only [List.mem_singleton] at hk; rw [hk]; exact List.mem_cons_self ..))).trans
+      (keeps_tr (hσ0 _ _ pre5.tr) ff (ht.sub kf))).trans (keeps_weak W xe xc xf xer xr (hst67 T'))
+  have inTry : ∀ K' b', Tr σ K' b' → Tr (Scope.try_ i true [] :: σ) K' b' := fun _ _ h => h.in_try i true
+  have P1_7 := k37 _ inTry T curP hT _ P1
+  have P2_7 := k37 _ inTry T [] (TOk.nil _ _) _ P2
+  have PH_7 := k37 σ (fun _ _ h => h) T [] (TOk.nil _ _) _ PH
+  obtain ⟨hHb, hHc, hHr⟩ := hnoesc (flowBlock body cur).raise
+  -- the four runs of the `finally` block
+  have srcP : ∀ (l : List Nat) x, x ∈ l → Src b5 i l x := fun l x hx => Or.inr ⟨hx, wait5⟩
+  have In := hfinal b5 R3.2 _ [] pre5 (fun x hx => Or.inl (hN x hx))
+  have Ib := hfinal b5 R3.2 _ _ pre5 (srcP ((flowBlock body cur).brk ++ ((flowBlock orelse (flowBlock body cur).normal).brk ++
+    (flowHandlers handlers (flowBlock body cur).raise).brk)))
+  have Ic := hfinal b5 R3.2 _ _ pre5 (srcP ((flowBlock body cur).cont ++ ((flowBlock orelse (flowBlock body cur).normal).cont ++
+    (flowHandlers handlers (flowBlock body cur).raise).cont)))
+  have Ir := hfinal b5 R3.2 _ _ pre5 (srcP ((flowBlock body cur).ret ++ ((flowBlock orelse (flowBlock body cur).normal).ret ++
+    (flowHandlers handlers (flowBlock body cur).raise).ret)))
+  have k67 : ∀ T' cP, Keeps σ T' cP r6.1 b7 := fun T' _ => keeps_weak W xe xc xf xer xr (hst67 T')
+  have In_7 := k67 i [] _ In.pend
+  have Ib_7 := k67 i _ _ Ib.pend
+  have Ic_7 := k67 i _ _ Ic.pend
+  have Ir_7 := k67 i _ _ Ir.pend
+  -- the pending jumps, at the end of the block
+  have hPJb : ∀ x', x' ∈ (flowBlock body cur).brk ++ ((flowBlock orelse (flowBlock body cur).normal).brk ++
+      (flowHandlers handlers (flowBlock body cur).raise).brk) →
+      ∃ t, loopOf σ = some t ∧ PJ false b7 t (i :: guardsOf .loop σ) x' := by
+    intro x' hx'
+    rcases List.mem_append.mp hx' with h | h
+    · exact P1_7.brk x' h
+    · rcases List.mem_append.mp h with h | h
+      · exact P2_7.brk x' h
+      · rw [hHb] at h; cases h
+  have hPJc : ∀ x', x' ∈ (flowBlock body cur).cont ++ ((flowBlock orelse (flowBlock body cur).normal).cont ++
+      (flowHandlers handlers (flowBlock body cur).raise).cont) →
+      ∃ t, loopOf σ = some t ∧ PJ true b7 t (i :: guardsOf .loop σ) x' := by
+    intro x' hx'
+    rcases List.mem_append.mp hx' with h | h
+    · exact P1_7.cont x' h
+    · rcases List.mem_append.mp h with h | h
+      · exact P2_7.cont x' h
+      · rw [hHc] at h; cases h
+  have hPJr : ∀ x', x' ∈ (flowBlock body cur).ret ++ ((flowBlock orelse (flowBlock body cur).normal).ret ++
+      (flowHandlers handlers (flowBlock body cur).raise).ret) →
+      ∃ t, fnOf σ = some t ∧ PJ false b7 t (i :: guardsOf .fn σ) x' := by
+    intro x' hx'
+    rcases List.mem_append.mp hx' with h | h
+    · exact P1_7.ret x' h
+    · rcases List.mem_append.mp h with h | h
+      · exact P2_7.ret x' h
+      · rw [hHr] at h; cases h
+  have hne : ∀ (l : List Nat), (flowBlock (f0 :: frest) l).normal ≠ [] → ∃ x', x' ∈ l := by
+    intro l h
+    cases l with
+    | nil => rw [flowBlock_nil_cur _ (by simp)] at h; exact (h rfl).elim
+    | cons x' _ => exact ⟨x', List.mem_cons_self ..⟩
+  have hendsN : ∀ (F0 : Flow), InLeaves r6.1 F0.normal →
+      ∃ bg ends', aget i b7.finallySub = some (some bg, some ends') ∧ ∀ x, x ∈ F0.normal → x ∈ b7.deref ends' :=
+    fun F0 h => ⟨beg, ends, hends, fun x hx => hsubE x (h x hx)⟩
+  obtain ⟨Cb, Nb⟩ := fin_convert σ T curP i b7 _ _ false (loopOf σ) (guardsOf .loop σ) hC7 (hendsN _ Ib.norm) (hne _) hPJb (fun t ht => Or.inl ht) Ib_7
+  obtain ⟨Cc, Nc⟩ := fin_convert σ T curP i b7 _ _ true (loopOf σ) (guardsOf .loop σ) hC7 (hendsN _ Ic.norm) (hne _) hPJc (fun t ht => Or.inl ht) Ic_7
+  obtain ⟨Cr, Nr⟩ := fin_convert σ T curP i b7 _ _ false (fnOf σ) (guardsOf .fn σ) hC7 (hendsN _ Ir.norm) (hne _) hPJr (fun t ht => Or.inr ⟨rfl, ht⟩) Ir_7
+  -- assemble
+  have nomem : ∀ (x : Nat), x ∈ ([] : List Nat) → False := fun _ h => (List.not_mem_nil h).elim
+  have A7 : Pend σ T curP b7
+      { req := (flowBlock body cur).req ++ ((flowBlock orelse (flowBlock body cur).normal).req ++ (flowHandlers handlers (flowBlock body cur).raise).req),
+        exempt := ((flowBlock body cur).raise ++ ((flowBlock orelse (flowBlock body cur).normal).raise ++ (flowHandlers handlers (flowBlock body cur).raise).raise)) ++
+          ((flowBlock body cur).exempt ++ ((flowBlock orelse (flowBlock body cur).normal).exempt ++ (flowHandlers handlers (flowBlock body cur).raise).exempt)) } := by
+    refine ⟨?_, fun x h => (nomem x h).elim, fun x h => (nomem x h).elim, fun x h => (nomem x h).elim, fun x h => (nomem x h).elim, ?_⟩
+    · intro p hp'
+      simp only [List.mem_append] at hp'
+      rcases hp' with h | h | h
+      · exact P1_7.req p h
+      · exact (P2_7.req p h).weaken
+      · exact (PH_7.req p h).weaken
+    · intro x hx
+      simp only [List.mem_append] at hx
+      rcases hx with (h | h | h) | (h | h | h)
+      · exact (P1_7.raise x h).1
+      · exact (P2_7.raise x h).1
+      · exact (PH_7.raise x h).1
+      · exact P1_7.exempt x h
+      · exact P2_7.exempt x h
+      · exact PH_7.exempt x h
+  have PFn : Pend σ T curP b7 ((flowBlock (f0 :: frest) ((flowBlock orelse (flowBlock body cur).normal).normal ++
+      (flowHandlers handlers (flowBlock body cur).raise).normal)).resumeInto (fun l => { normal := l })) :=
+    Pend.alt (Pend.of_req σ T curP b7 [] _ (fun p h => (List.not_mem_nil h).elim)) In_7.retarget.drop_normal
+  have PFb : Pend σ T curP b7 ((flowBlock (f0 :: frest) ((flowBlock body cur).brk ++ ((flowBlock orelse (flowBlock body cur).normal).brk ++
+      (flowHandlers handlers (flowBlock body cur).raise).brk))).resumeInto (fun l => { brk := l })) :=
+    Pend.alt ⟨fun p h => (List.not_mem_nil h).elim, Nb, fun x h => (nomem x h).elim, fun x h => (nomem x h).elim,
+      fun x h => (nomem x h).elim, fun x h => (nomem x h).elim⟩ Cb
+  have PFc : Pend σ T curP b7 ((flowBlock (f0 :: frest) ((flowBlock body cur).cont ++ ((flowBlock orelse (flowBlock body cur).normal).cont ++
+      (flowHandlers handlers (flowBlock body cur).raise).cont))).resumeInto (fun l => { cont := l })) :=
+    Pend.alt ⟨fun p h => (List.not_mem_nil h).elim, fun x h => (nomem x h).elim, Nc, fun x h => (nomem x h).elim,
+      fun x h => (nomem x h).elim, fun x h => (nomem x h).elim⟩ Cc
+  have PFr : Pend σ T curP b7 ((flowBlock (f0 :: frest) ((flowBlock body cur).ret ++ ((flowBlock orelse (flowBlock body cur).normal).ret ++
+      (flowHandlers handlers (flowBlock body cur).raise).ret))).resumeInto (fun l => { ret := l })) :=
+    Pend.alt ⟨fun p h => (List.not_mem_nil h).elim, fun x h => (nomem x h).elim, fun x h => (nomem x h).elim, Nr,
+      fun x h => (nomem x h).elim, fun x h => (nomem x h).elim⟩ Cr
+  have total := Pend.alt A7 (Pend.alt PFn (Pend.alt PFb (Pend.alt PFc PFr)))
+  simp only [flowStmt, List.isEmpty_cons, Bool.false_eq_true, if_false]
+  refine ⟨keeps_endStatement b7 i _ total, ?_, (neutral_endStatement _ i).ldj (ldj_of_eq xe xc In.ldj)⟩
+  intro x hx
+  simp only [Flow.alt, Flow.resumeInto, List.nil_append, List.append_nil] at hx
+  rw [B.leafSet_endStatement]
+  by_cases hd : (!R3.1.leafSet.isEmpty) = true
+  · rw [hdT hd]; exact In.norm x hx
+  · have hd' : (!R3.1.leafSet.isEmpty) = false := by simpa using hd
+    have hem : R3.1.leafSet = [] := by simpa using hd'
+    have hPn : (flowBlock orelse (flowBlock body cur).normal).normal ++ (flowHandlers handlers (flowBlock body cur).raise).normal = [] := by
+      apply List.eq_nil_iff_forall_not_mem.mpr
+      intro y hy
+      have := hN y hy
+      rw [hem] at this
+      cases this
+    rw [hPn, flowBlock_nil_cur _ (by simp)] at hx
+    cases hx
 
 end Malt.Cfg
